@@ -10,7 +10,7 @@ from dump import dump_expr, dump_event, canon, classify_exception
 
 S = Sym
 PROPERTY = 'C15'
-PROPS_MODULES = ['C15']
+PROPS_MODULES = ['C15', 'C15b']
 ASSUMPTIONS = ['sets returned by the implementation are compared as sorted lists (order of a Python set is not observable)']
 NAMES = ['A', 'B', 'a', 'i', 'j', 'zz', 'M1', 'X', 'Y']
 
@@ -130,6 +130,73 @@ def tmpl_type(r):
     return None
 
 
+def _walk_expr(e, out):
+    out.append(e)
+    if e.is_quantifier:
+        _walk_expr(e.domain, out); _walk_expr(e.condition, out)
+    elif e.is_function_call:
+        for a in e.arguments:
+            _walk_expr(a, out)
+    elif e.is_operator:
+        if e.arity == 1:
+            _walk_expr(e.operand, out)
+        else:
+            _walk_expr(e.operand1, out); _walk_expr(e.operand2, out)
+    elif e.is_accessor:
+        if e.is_field:
+            _walk_expr(e.message, out)
+        else:
+            _walk_expr(e.array, out); _walk_expr(e.index, out)
+    elif e.is_value:
+        if e.is_set:
+            for v in e.values:
+                _walk_expr(v, out)
+        elif e.is_range:
+            _walk_expr(e.min_value, out); _walk_expr(e.max_value, out)
+
+
+def _walk_event(ev, out):
+    out.append(ev)
+    if ev.is_simple_event:
+        out.append(ev.predicate)
+        if not ev.predicate.is_vacuous:
+            _walk_expr(ev.predicate.expression, out)
+    else:
+        _walk_event(ev.event1, out); _walk_event(ev.event2, out)
+
+
+def _walk_property(p):
+    """the nodes of a property in pre-order, from its public attributes (not from children())"""
+    out = [p, p.scope]
+    for ev in (p.scope.activator, p.scope.terminator):
+        if ev is not None:
+            _walk_event(ev, out)
+    out.append(p.pattern)
+    for ev in (p.pattern.trigger, p.pattern.behaviour):
+        if ev is not None:
+            _walk_event(ev, out)
+    return out
+
+
+def _node_tag(n):
+    if n.is_property: return 'property'
+    if getattr(n, 'is_scope', False): return 'scope'
+    if getattr(n, 'is_pattern', False): return 'pattern'
+    if getattr(n, 'is_event', False): return 'simple_event' if n.is_simple_event else 'disjunction'
+    if n.is_predicate: return ('true' if n.is_true else 'false') if n.is_vacuous else 'predicate'
+    e = n
+    if e.is_value:
+        if e.is_literal: return 'lit'
+        if e.is_this_msg: return 'this'
+        if e.is_variable: return 'var'
+        if e.is_set: return 'set'
+        return 'range'
+    if e.is_quantifier: return 'quant'
+    if e.is_function_call: return 'call'
+    if e.is_operator: return 'un' if e.arity == 1 else 'bin'
+    return 'field' if e.is_field else 'index'
+
+
 def run(ctx):
     rng = ctx.rng
     exprs = []        # (label, python expression object, raw or text)
@@ -186,6 +253,7 @@ def run(ctx):
     pp = property_parser()
     pg = PropGen(rng)
     events = []
+    props = []
     for _ in range(150 if ctx.quick else 2000):
         p = pg.prop()
         txt = render_property(p, rng, 'min')
@@ -196,6 +264,15 @@ def run(ctx):
             continue
         for ev in ast.events():
             events.append((ev, txt))
+        props.append((ast, txt))
+    # 3b. properties whose events reach their own message through the alias several times (the event constructor puts ONE message
+    # object in every such place: a shared node must still be visited once per position)
+    for txt in ('globally: no /a as M {@M.x > @M.y}', 'after s as A {@A.x > 0 and @A.y > @A.x}: (t as B {@B.x = @A.x} or u {x > 0}) causes v {@A.y < 1} within 5 s',
+                'until q {forall i in xs: @i > x}: some t as T {@T.x in [@T.y to @T.z]}', 'globally: t as T {abs(@T.x) > @T.x} requires (u as U {@U.b} or w)'):
+        try:
+            props.append((pp.parse(txt), txt))
+        except Exception:
+            gen_fail += 1
 
     # 4. events built through the API with every alias / reference placement over {X, Y} (valid or not as properties)
     from hpl.ast import HplSimpleEvent, HplEventDisjunction
@@ -258,6 +335,25 @@ def run(ctx):
             if [got[0], got[2], got[3]] != sp:
                 violations.append({'input': inp, 'impl': [got[0], got[2], got[3]], 'spec': sp,
                                    'what': 'event query differs from free references / occurrences / aliases in source order', 'signature': 'event-query'})
+    # ---- iterate() on whole properties: against an independent pre-order walk over the public attributes (identity of the visited
+    # objects, one visit per position), and against the model's loop (tags of the visited nodes)
+    prop_iter = {'properties': 0, 'nodes': 0}
+    if ctx.driver is not None and props:
+        from dump import dump_property
+        pans = ctx.driver.run_parallel([dumps([S('nodeiter'), dump_property(p)]) for p, _ in props])
+        for (p, txt), a in zip(props, pans):
+            got = list(p.iterate())
+            want = _walk_property(p)
+            prop_iter['properties'] += 1; prop_iter['nodes'] += len(want)
+            inp = {'kind': 'property', 'source': txt}
+            if len(got) != len(want) or any(g is not w for g, w in zip(got, want)):
+                violations.append({'input': inp, 'impl': [type(x).__name__ for x in got][:40], 'spec': [type(x).__name__ for x in want][:40],
+                                   'what': 'iterate() of a property is not the pre-order walk (every node once per position, parents first, left to right)',
+                                   'signature': 'iterate-property'})
+            x = loads(a)
+            tags = [_node_tag(n) for n in got]
+            if x[0] != 'ok' or [str(t) for t in x[1:]] != tags:
+                disagreements.append({'input': inp, 'impl': tags[:40], 'model': [str(t) for t in x[1:]][:40]})
     samples = [{'source': (s if isinstance(s, str) else dumps(to_wire(s)))[:200], 'external_references': a[0], 'self': a[1], 'nodes_visited': len(a[4])}
                for (l, e, s), a in list(zip(exprs, impl_answers))[n_enum:n_enum + 4] + list(zip(exprs, impl_answers))[:3]]
     return {
@@ -269,6 +365,7 @@ def run(ctx):
                 'the spec (specquery/evspec: freeVars and predicates over the pre-order listing)',
         'samples': samples,
         'violations': violations,
+        'coverage_property_iterate': prop_iter,
         'disagreements': disagreements,
         'coverage_extra': {'enumerated': n_enum, 'random': len(exprs) - n_enum, 'events': len(events), 'generator_rejects': gen_fail,
                            'node_kinds_visited': kinds},
